@@ -114,8 +114,10 @@ func (r *RoundRobin) Select(pool HostPool, request *http.Request) *UpstreamHost 
 	defer r.mutex.Unlock()
 	// Return next available host
 	for i := uint32(0); i < poolLen; i++ {
-		r.robin++
-		host := pool[r.robin%poolLen]
+		// keep the counter below poolLen, so that every slot is
+		// probed also when the uint32 wraps around
+		r.robin = (r.robin + 1) % poolLen
+		host := pool[r.robin]
 		if host.Available() {
 			return host
 		}
